@@ -406,7 +406,11 @@ UPGRADE_HDRS = [
     [['Upgrade', 'h2c'], ['Connection', 'Upgrade, HTTP2-Settings']],
 ]
 RAW_BODIES = ['', '4raw', '6', '3', '1', 'garbage', '4a\x1e4b', '\x1e',
-              'b!!', '9', '4' + 'x' * 300, 'd=4form', '4😀']
+              'b!!', '9', '4' + 'x' * 300, 'd=4form', '4😀',
+              # bodies whose decoding fails with something other than
+              # ValueError: a form body with an empty field (KeyError), JSON
+              # nested deeper than the interpreter recurses (RecursionError)
+              'd=', 'd=&x=1', 'x=1', '4' + '[' * 3000 + ']' * 3000]
 
 
 def raw_request(rng, t, malformed=False):
